@@ -63,6 +63,7 @@ def workloads(ctx: core.Ctx) -> list[dict]:
         {"name": "single", "keys": keys, "sessions": [
             {"ops": [["open"], ["cred", "a", None, 0], ["cred", "b", "a", 1], ["content", "c", 20000],
                      ["again", "a"], ["subst", 2, 1], ["blob", "x", 300], ["blob", "y", 30000],
+                     ["latecontent", "late", 700],
                      # boundary values of the record alphabet: empty / one-zero-byte content, empty blob
                      ["content", "empty", 0], ["content", "nul", -1], ["blob", "void", 0]],
              "end": "close"}]},
@@ -287,6 +288,14 @@ def ledger(events: list[dict]) -> tuple[dict, dict, tuple | None]:
         elif ev["e"] == "A":
             for i in ev["i"]:
                 t, row = open_.pop(i)
+                if t == "Tokens":
+                    # one token, two forms: the record that carries the content is the complete one and supersedes
+                    # the hash-only form of the same token (same key, previous hash, signature, content hash),
+                    # whichever was acknowledged first
+                    if row[4] is not None:
+                        acked[t].discard((*row[:4], None))
+                    elif any(r[:4] == row[:4] and r[4] is not None for r in acked[t]):
+                        continue
                 acked[t].add(row)
         elif ev["e"] == "S":
             open_ = {}          # a new process: whatever was unacknowledged in the previous one stays that way
@@ -311,6 +320,10 @@ def oracle(events: list[dict], rc: int, obs: dict | None, stderr: str) -> tuple[
     def compare(view: str, table: str, rows: list) -> bool:
         have = {tuple(r) for r in rows}
         lost = acked[table] - have
+        if table == "Tokens":
+            # an acknowledged hash-only token is present when the stored row of that token has gained its content
+            # meanwhile (an insert of the complete form was in progress when the process died; alien rows are judged below)
+            lost = {r for r in lost if not (r[4] is None and any(h[:4] == r[:4] for h in have))}
         alien = have - begun[table]
         if lost:
             v.append((f"acked-record-lost:{table}:{view}",
